@@ -194,6 +194,25 @@ def run(ctx):
     ctx.trace(len(terms) - len(bad))
 
 
+def replay(ctx, rec):
+    """Re-run every session of the recorded file (same seed, same file index)."""
+    from core import grid as G
+    from allmydata.immutable import offloaded
+    fi = (rec.get("case") or {}).get("file", 0)
+    terms, info = [], []
+    old_chunk = offloaded.CHKCiphertextFetcher.CHUNK_SIZE
+    try:
+        with G.Grid(num_clients=1, num_servers=5, k=2, n=4, happy=1, max_segment_size=128, seed=ctx.seed) as g, \
+                G.Grid(num_clients=1, num_servers=5, k=2, n=4, happy=1, max_segment_size=128, seed=ctx.seed + 1) as g2:
+            one_file(ctx, Rig(g), Rig(g2), fi, terms, info)
+    finally:
+        offloaded.CHKCiphertextFetcher.CHUNK_SIZE = old_chunk
+    bad = ctx.coq_check(IMPORTS, terms, preamble=PREAMBLE, tag="c44replay")
+    for ix in bad:
+        ctx.mismatch("model-vs-helper:" + info[ix][0], "Coq model and the real helper disagree", case=info[ix][1], correspondence=info[ix][0])
+    return {"file": fi, "sessions": ctx.evaluations, "failures": [f["kind"] for f in ctx.failures]}
+
+
 def n_list(xs):
     return T.lst([T.N(x) for x in xs])
 
